@@ -459,6 +459,7 @@ func lexInsideAction(l *lexer) stateFn {
 			l.emit(itemAnd)
 		} else {
 			l.backup()
+			l.emit(itemChar)
 		}
 	case r == '<':
 		if l.next() == '=' {
